@@ -10,10 +10,12 @@ import (
 	"bytes"
 	"crypto/ed25519"
 	"fmt"
+	"hash/crc32"
 	"math/rand"
 	"net/http"
 	"net/http/httptest"
 	"os"
+	"strings"
 	"sync"
 	"time"
 
@@ -44,6 +46,78 @@ var alphabet = []symbol{
 	{"finish", "accessory-name-self-signed"}, {"finish", "removed-controller"}, {"finish", "sealed-wrong-key"}, {"finish", "sealed-zero-key"},
 	{"finish", "short"}, {"finish", "empty"}, {"finish", "known-name-empty-sig"}, {"finish", "tampered-ciphertext"}, {"finish", "genuine-other-controller"},
 	{"finish", "degenerate-key+neutral-signature"}, {"finish", "degenerate-key+low-order-signature"}, {"finish", "degenerate-key+self-signed"},
+	// an UNKNOWN name that a storage layer might confuse with a stored one (padding, case, truncation of long names, equal
+	// CRC-32), signed with the stored controller's real key over this exchange and the claimed name
+	{"finish", "alias-of-stored-name"},
+}
+
+// aliasOf derives a name that is not stored from a stored one.
+func aliasOf(rnd *rand.Rand, id string) (alias, kind string) {
+	b := []byte(id)
+	if len(b) > 124 {
+		switch rnd.Intn(4) {
+		case 0:
+			return string(b[:124]), "long-name-cut-at-124"
+		case 1:
+			t := make([]byte, len(b)-120)
+			rnd.Read(t)
+			return string(b[:120]) + string(t), "long-name-same-first-120-bytes"
+		case 2:
+			return string(b[:len(b)-1]), "long-name-without-last-byte"
+		default:
+			// same first 120 bytes, another tail, and four bytes that give the whole name the CRC-32 (IEEE) of the stored one
+			t := make([]byte, 12)
+			rnd.Read(t)
+			pre := append(append([]byte{}, b[:120]...), t...)
+			if f := crcForge(pre, crc32.ChecksumIEEE(b)); f != nil {
+				return string(append(pre, f...)), "long-name-same-first-120-bytes-and-crc32"
+			}
+			return string(pre), "long-name-same-first-120-bytes"
+		}
+	}
+	switch rnd.Intn(8) {
+	case 0:
+		return id + "\x00", "nul-appended"
+	case 1:
+		return id + " ", "space-appended"
+	case 2:
+		return strings.ToUpper(id), "upper-case"
+	case 3:
+		return id[:len(id)-1], "without-last-byte"
+	case 4:
+		return id + "/", "slash-appended"
+	case 5:
+		return "./" + id, "dot-slash-prefix"
+	case 6:
+		return id + "\x00" + "x", "nul-and-more-appended"
+	default:
+		return id + ".entity", "storage-suffix-appended"
+	}
+}
+
+// crcForge returns four bytes x with crc32(prefix || x) == target.
+func crcForge(prefix []byte, target uint32) []byte {
+	tbl := crc32.IEEETable
+	var rev [256]byte
+	for i := 0; i < 256; i++ {
+		rev[tbl[i]>>24] = byte(i)
+	}
+	var idx [4]byte
+	w := ^target
+	for i := 3; i >= 0; i-- {
+		idx[i] = rev[w>>24]
+		w = (w ^ tbl[idx[i]]) << 8
+	}
+	reg := ^crc32.ChecksumIEEE(prefix)
+	out := make([]byte, 4)
+	for i := 0; i < 4; i++ {
+		out[i] = byte(reg) ^ idx[i]
+		reg = (reg >> 8) ^ tbl[idx[i]]
+	}
+	if crc32.ChecksumIEEE(append(append([]byte{}, prefix...), out...)) != target {
+		return nil
+	}
+	return out
 }
 
 // stored "keys" that are no Ed25519 public keys (wrong length); padded with zeros some of them become points of small
@@ -87,7 +161,9 @@ type world struct {
 	accID         string
 	accLTPK       []byte
 	rnd           *rand.Rand
-	otherConnGood []byte // a genuine M3 recorded on another connection
+	otherConnGood []byte           // a genuine M3 recorded on another connection
+	long          *refctl.Identity // a controller with a name of more than 124 bytes that the world tried to store (hc may refuse: file name too long)
+	longStored    bool
 }
 
 // buildM1 returns the start message and updates nothing; the caller applies the response.
@@ -246,6 +322,26 @@ func buildFinish(w *world, p *peer, variant string) (msg []byte, genuine bool) {
 		}
 		e := &refctl.Enc{}
 		return refctl.VerifyM3(ex.encKey, e.Bytes(refctl.TagIdentifier, []byte(name)).Bytes(refctl.TagSignature, sig).B), false
+	case "alias-of-stored-name":
+		base := me
+		if w.long != nil && (base == nil || w.rnd.Intn(2) == 0) {
+			base = w.long
+		}
+		if base == nil {
+			return refctl.VerifyM3(ex.encKey, refctl.VerifyM3Plain("unknown-controller", stranger.LTSK, ex.pub[:], ex.accPub)), false
+		}
+		alias, kind := aliasOf(w.rnd, base.ID)
+		for _, c := range w.ctrls {
+			if c.ID == alias {
+				alias += "~"
+			}
+		}
+		run.Count("finishes_naming_an_alias_of_a_stored_name", 1)
+		run.Distinct("alias_kind", kind)
+		if base == w.long && w.longStored {
+			run.Count("finishes_naming_an_alias_of_a_stored_LONG_name", 1)
+		}
+		return refctl.VerifyM3(ex.encKey, refctl.VerifyM3Plain(alias, base.LTSK, ex.pub[:], ex.accPub)), false
 	case "tampered-ciphertext":
 		id, sk := "nobody", stranger.LTSK
 		if me != nil {
@@ -351,6 +447,18 @@ func inprocHistory(hno int, seq []symbol, nctrl int, withRemoved bool, rnd *rand
 		id := refctl.NewIdentity(fmt.Sprintf("ctrl-%d", i), rnd)
 		w.ctrls = append(w.ctrls, id)
 		database.SaveEntity(db.NewEntity(id.ID, id.LTPK, nil))
+	}
+	if hno%2 == 0 {
+		// a controller with a long name (HAP ids are 36 characters; an administrator can send anything); hc may refuse to
+		// store it (file name too long): then the name is simply unknown
+		n := []int{125, 130, 200, 300}[(hno/2)%4]
+		w.long = refctl.NewIdentity("long-"+strings.Repeat("n", n-5), rnd)
+		w.longStored = database.SaveEntity(db.NewEntity(w.long.ID, w.long.LTPK, nil)) == nil
+		if w.longStored {
+			run.Count("long_names_stored", 1)
+		} else {
+			run.Count("long_names_the_database_refused_to_store", 1)
+		}
 	}
 	// pairings whose stored key is not an Ed25519 public key at all (an administrator can store anything): no finish
 	// message naming one of them can carry "a valid signature made with the stored key"
@@ -604,7 +712,7 @@ func opensUnder(raw []byte, p *peer) []byte {
 func main() {
 	run = vf.Start("C03", "exploration")
 	r := run
-	r.SetRule("a history = (pairing set of 0..3 controllers, optionally a removed one, 1 or 2 connections, sequence over a 28-symbol pair-verify alphabet); all sequences up to length 2 (quick) / 3 (thorough) " +
+	r.SetRule("a history = (pairing set of 0..3 controllers, optionally a removed one, 1 or 2 connections, sequence over a 29-symbol pair-verify alphabet); all sequences up to length 2 (quick) / 3 (thorough) " +
 		"plus random sequences of length 3..8; after every message the verified state of the session is compared with the model (only a finish that is genuine for the exchange opened by the last accepted start may verify); " +
 		"non-trivial = distinct (pairing set, sequence)")
 	r.Assume("the monitor builds every message itself with refctl and therefore knows which finish messages are genuine; x/crypto X25519 and crypto/ed25519 are correct")
@@ -690,6 +798,10 @@ func main() {
 		w.ctrls = append(w.ctrls, id)
 		app.StoreController(dir, id)
 	}
+	w.long = refctl.NewIdentity("long-"+strings.Repeat("n", 140), w.rnd)
+	if d, err := db.NewDatabase(dir); err == nil { // through hc's own database, whatever file name it derives
+		w.longStored = d.SaveEntity(db.NewEntity(w.long.ID, w.long.LTPK, nil)) == nil
+	}
 	a, err := app.Start(dir, "00102003", accessory.NewSwitch(accessory.Info{Name: "C03"}).Accessory)
 	if err != nil {
 		r.Inconclusive("transport: " + err.Error())
@@ -744,6 +856,8 @@ func main() {
 
 	r.Floor("messages", int(r.Counter("messages")), 5000)
 	r.Floor("verified_by_genuine_finish", int(r.Counter("verified_by_genuine_finish")), 50)
+	r.Floor("finishes_naming_an_alias_of_a_stored_name", int(r.Counter("finishes_naming_an_alias_of_a_stored_name")), 150)
+	r.Floor("alias kinds", r.DistinctN("alias_kind"), 10)
 	r.Floor("forged_finishes_refused+violations", int(r.Counter("forged_finishes_refused"))+r.ViolationCount(), 1000)
 	r.Finish()
 }
